@@ -547,7 +547,7 @@ func runSpec(s spec, ip string) *vh.Case {
 	cwg.Wait()
 	for i, ok := range alive {
 		if !ok {
-			c.Oracle("node-not-alive", "node %d: Syncer.Run did not return within 10 s after Close", i)
+			c.Oracle("node-not-alive", "node %d: Syncer.Close / Run did not return within 15 s", i)
 		}
 	}
 	return c
